@@ -37,7 +37,8 @@ type Program struct {
 	ModFuncs []*ssa.Function
 	LoadTime time.Duration
 
-	cg *CallGraph
+	cg   *CallGraph
+	refs map[*ssa.Function][]fnRef
 }
 
 // MinPackages is the floor asserted on every load (40 packages confirmed by hand).
